@@ -244,6 +244,28 @@ def gen_case(rng, malformed=False, long=False):
                 t.arrays.append([t.push("single", y) for y in ys])
             else:
                 flags.add("neg")
+        elif r < 0.46 and t.arrays and rng.random() < 0.25:
+            # arr[i] = number (the element's value setter) / arr[i] = (v, e) (a NEW element, built
+            # by wrap_in_measurement -> MeasuredValue(v, e); the old one stays as it was)
+            ids = rng.choice(t.arrays)
+            i = rng.randrange(-len(ids), len(ids))
+            v = sval(rng)
+            if rng.random() < 0.3:
+                ops.append(["setitem", list(ids), i, [bits(v), None]])
+                j = ids[i]
+                t.kind[j], t.val[j], t.src[j], t.stale[j] = "single", v, {j}, False
+                t.touched(j)
+            else:
+                e = serr(rng, max(pneg * 1.5, 0.3))
+                ops.append(["setitem", list(ids), i, [bits(v), bits(e)]])
+                flags.add("setitem")
+                if e >= 0:
+                    new = list(ids)
+                    new[i] = t.push("single", v)
+                    k = next(k for k, a in enumerate(t.arrays) if a is ids)
+                    t.arrays[k] = new
+                else:
+                    flags.add("neg")
         elif r < 0.46 and t.arrays and rng.random() < 0.45:
             # arr.append(x) / arr.insert(i, x) with x a number, a (v, e) pair or a list of pairs:
             # each new element is built by wrap_in_measurement -> MeasuredValue(v, e)
@@ -327,8 +349,9 @@ def gen_case(rng, malformed=False, long=False):
             # src of a derived value: every heap index its formula mentions, measured leaves and
             # derived intermediates alike (casting an intermediate to a measurement by one of its
             # setters changes what the formula means, so dependants are stale after that, too)
-            if rng.random() < 0.12:
-                ops.append(["un", "neg", a])
+            if rng.random() < 0.2:
+                # unary minus, or a function that is defined (and bounded) everywhere
+                ops.append(["un", rng.choice(["neg", "neg", "sin", "cos", "atan"]), a])
                 t.push("derived", None, t.src[a] | {a})
                 continue
             o = rng.choice(["add", "sub", "mul", "div"])
@@ -497,6 +520,9 @@ def describe(c):
             arg = repr(its[0]) if len(its) == 1 else repr(its)
             out.append("<array h{}>.{}".format(o[1], "append({})".format(arg) if o[3] is None
                                               else "insert({}, {})".format(o[3], arg)))
+        elif k == "setitem":
+            out.append("<array h{}>[{}] = {}".format(o[1], o[2], repr(unbits(o[3][0])) if o[3][1] is None
+                                                    else repr((unbits(o[3][0]), unbits(o[3][1])))))
         elif k == "seterr":
             out.append("h[{}].error = {!r}".format(o[1], unbits(o[2])))
         elif k == "setrel":
@@ -508,7 +534,7 @@ def describe(c):
         elif k == "arith":
             out.append("{} {} {}".format(opnd(o[2]), sym[o[1]], opnd(o[3])))
         elif k == "un":
-            out.append("-h[{}]".format(o[2]))
+            out.append("-h[{}]".format(o[2]) if o[1] == "neg" else "q.{}(h[{}])".format(o[1], o[2]))
         elif k == "mcmean":
             out.append("h[{0}].error_method = MC; h[{0}].mc.use_mean_and_std()".format(o[1]))
         elif k == "mcmode":
@@ -623,6 +649,19 @@ def observe(q, c):
                 nid = list(range(len(objs), len(objs) + len(fresh)))
                 arrays[tuple(list(o[1][:pos]) + nid + list(o[1][pos:]))] = res
                 new.extend(fresh)
+        elif k == "setitem":
+            def f():
+                key = tuple(o[1])
+                a = arrays[key]
+                v, e = o[3]
+                if e is None:
+                    a[o[2]] = unbits(v)
+                else:
+                    a[o[2]] = (unbits(v), unbits(e))
+                    idx = o[2] % len(key)
+                    del arrays[key]
+                    arrays[key[:idx] + (len(objs),) + key[idx + 1:]] = a
+                    new.append(a[o[2]])
         elif k == "seterr":
             def f():
                 objs[o[1]].error = unbits(o[2])
@@ -645,7 +684,7 @@ def observe(q, c):
                 new.append(r)
         elif k == "un":
             def f():
-                new.append(-objs[o[2]])
+                new.append(-objs[o[2]] if o[1] == "neg" else getattr(q, o[1])(objs[o[2]]))
         elif k in ("mcmean", "mcmode", "mccustom"):
             def f():
                 x = objs[o[1]]
@@ -697,6 +736,12 @@ def model_line(c, o=None):
             ops.append(["mcmean", op[1], mc.get("samples", [])])
         elif op[0] == "mcmode":
             ops.append(["mcmode", op[1], mc.get("counts", []), mc.get("edges", []), op[2]])
+        elif op[0] == "setitem":
+            # a number goes to the element's value setter; a pair makes a new MeasuredValue(v, e)
+            if op[3][1] is None:
+                ops.append(["setval", op[1][op[2] % len(op[1])], op[3][0]])
+            else:
+                ops.append(["meas", op[3][0], op[3][1]])
         elif op[0] == "append":
             # every new element goes through MeasuredValue(v, e) (a bare number: e = 0); a list is
             # all-or-nothing, like the array constructor with per-element uncertainties
@@ -821,6 +866,10 @@ def run_cases(ctx, cases, ref=False, with_model=True):
                       "11-14" if len(c["ops"]) <= 14 else "15-40")] += 1
         for op, st in zip(c["ops"], o["steps"]):
             tag = op[0]
+            if op[0] == "un":
+                tag += ":" + op[1]
+            if op[0] == "setitem":
+                tag += ":number" if op[3][1] is None else ":pair"
             if op[0] in ("rep", "array", "rewrap"):
                 tag += ":" + (op[2][0] if op[2] else "none")
             if op[0] in ("seterr", "setrel", "setval", "sel") and op[1] < len(st["heap"]):
